@@ -35,7 +35,9 @@ SENDER = 'slimta.smtp.datasender.DataSender'
 STATE_OWNERS = {'i': {'__init__', 'handle_finished_line'},
                 'lines': {'__init__', '_append_line',
                           'handle_finished_line'},
-                'EOD': {'__init__', 'handle_finished_line', 'recv_piece'}}
+                # EOD is decided by what the write means, not by where it
+                # is: see r56 (end-of-data line matched / reader gives up)
+                }
 
 
 def run(e: Engine, rep: Report):
@@ -52,8 +54,10 @@ def run(e: Engine, rep: Report):
              'containing CR/LF in DataSender._process_part / __iter__ is LF '
              'or LF+"."; `find(lit) + k` has k = len(lit)')
     rep.rule('R5.6', 'add_lines calls handle_finished_line exactly once per '
-             'match of fullline_pattern; DataReader.i / lines / EOD are '
-             'assigned only in their owner methods')
+             'match of fullline_pattern; DataReader.i / lines are assigned '
+             'only in their owner methods (private helpers of owners '
+             'included); EOD is set only to None initially, under a match of '
+             'eod_pattern, or right before raise MessageTooBig')
     rep.tables.add('c05.STATE_OWNERS')
     rep.not_decided += [
         'the bijection between DataSender._process_part (dot stuffing, end '
@@ -242,6 +246,46 @@ def r56(e: Engine, rep: Report):
                         callers[mname] <= owners[a]:
                     owners[a].add(mname)
                     changed = True
+    # EOD: the initial None, the index of a line that matched the
+    # end-of-data pattern, or the give-up mark set right before MessageTooBig
+    # is raised - nothing else
+    for mname, m in sorted(c.methods.items()):
+        if not any(isinstance(x, ast.Attribute) and x.attr == 'EOD' and
+                   isinstance(x.ctx, ast.Store) for x in ast.walk(m.node)):
+            continue
+        cx = Ctx(m, READER)
+        gg = e.build(cx, raises=lambda b, n, r: set())
+        ff = e.facts(gg)
+        for n in gg.of_kind('stmt'):
+            if not (isinstance(n.ast, ast.Assign) and any(
+                    isinstance(t, ast.Attribute) and t.attr == 'EOD' and
+                    isinstance(t.value, ast.Name) and t.value.id == 'self'
+                    for t in n.ast.targets)):
+                continue
+            nw += 1
+            rep.evaluations += 1
+            v = n.ast.value
+            st = ff.at(n) or frozenset()
+            init = mname == '__init__' and isinstance(v, ast.Constant) and \
+                v.value is None
+            matched = any(p and 'eod_pattern' in k for p, k in st)
+            nxt = [s2 for l, s2 in n.succ]
+            while len(nxt) == 1 and nxt[0].kind == 'call':
+                nxt = [s2 for l, s2 in nxt[0].succ
+                       if not isinstance(l, tuple)]
+            gives_up = bool(nxt) and all(
+                s2.kind == 'stmt' and isinstance(s2.ast, ast.Raise) and
+                'MessageTooBig' in ast.unparse(s2.ast) for s2 in nxt)
+            rep.check(init or matched or gives_up, 'R5.6', m.qname,
+                      'write of self.EOD',
+                      'DataReader.EOD is set in %s although neither the '
+                      'line matched the end-of-data pattern nor the reader '
+                      'gives up with MessageTooBig: content after that '
+                      'point is handed back to the command parser'
+                      % mname, loc=n.loc(),
+                      reason='initial None' if init else (
+                          'under a match of eod_pattern' if matched
+                          else 'followed by raise MessageTooBig'))
     for mname, m in sorted(c.methods.items()):
         for n in walk_own(m.node):
             tg = []
